@@ -114,8 +114,15 @@ class Check:
         self.theorems = []
         self.tmpdirs = []
         shutil.rmtree(os.path.join(ROOT, "replays", pid), ignore_errors=True)
-        self.work = os.path.join(BUILD, "work", pid)
-        shutil.rmtree(self.work, ignore_errors=True)
+        # one work directory per run (two runs of one property may overlap); directories of runs that are gone are removed
+        wroot = os.path.join(BUILD, "work")
+        os.makedirs(wroot, exist_ok=True)
+        for d in os.listdir(wroot):
+            if d == pid or d.startswith(pid + "."):
+                owner = d.rsplit(".", 1)[-1]
+                if not (owner.isdigit() and os.path.exists("/proc/" + owner)):
+                    shutil.rmtree(os.path.join(wroot, d), ignore_errors=True)
+        self.work = os.path.join(wroot, "%s.%d" % (pid, os.getpid()))
         os.makedirs(self.work, exist_ok=True)
         self.samples = []
         self.evaluations = 0
@@ -322,6 +329,7 @@ class Check:
     def finish(self, level="proof", rule="", extra=None):
         for d in self.tmpdirs:
             shutil.rmtree(d, ignore_errors=True)
+        shutil.rmtree(self.work, ignore_errors=True)
         cov = {
             "obligations": self.obligations,
             "discharged": self.discharged,
